@@ -306,7 +306,7 @@ pub fn c04(ctx: &mut Ctx) -> Search {
 
     for len in 0..=maxlen {
         let random = ctx.rng.bytes(len);
-        let mut mutated = |v: &[u8], rng: &mut Rng| -> Vec<u8> {
+        let mutated = |v: &[u8], rng: &mut Rng| -> Vec<u8> {
             let mut x = v[..len.min(v.len())].to_vec();
             if !x.is_empty() {
                 let p = rng.below(x.len());
@@ -327,7 +327,7 @@ pub fn c04(ctx: &mut Ctx) -> Search {
         }
         // valid prefix and valid-with-one-bit-flipped, per primitive
         for mutate in [false, true] {
-            let mut pick = |v: &[u8], rng: &mut Rng| -> Vec<u8> {
+            let pick = |v: &[u8], rng: &mut Rng| -> Vec<u8> {
                 if mutate {
                     mutated(v, rng)
                 } else {
